@@ -129,13 +129,14 @@ theorem nbytesOf_ge (bitsPerKey : Nat) (keys : List Bytes) : 8 ≤ nbytesOf bits
   split <;> omega
 
 /-- the shape of a created filter: a bit array of `nbytesOf` bytes, then the byte `k` -/
-theorem createFilter_eq (bitsPerKey : Nat) (keys : List Bytes) (hfit : FitsU32 bitsPerKey keys) :
+theorem createFilter_eq (bitsPerKey : Nat) (keys : List Bytes) (hfit : FitsBits bitsPerKey keys) :
     createFilter bitsPerKey keys =
       keys.foldl (addKey (nbytesOf bitsPerKey keys * 8) (kOf bitsPerKey))
         (List.replicate (nbytesOf bitsPerKey keys) 0) ++ [UInt8.ofNat (kOf bitsPerKey)] := by
-  have hu : u32 (nbytesOf bitsPerKey keys * 8) = nbytesOf bitsPerKey keys * 8 := Nat.mod_eq_of_lt hfit
+  have hu : (nbytesOf bitsPerKey keys * 8) % 2 ^ Consts.bloomBitsWidth = nbytesOf bitsPerKey keys * 8 :=
+    Nat.mod_eq_of_lt hfit
   unfold createFilter
-  show keys.foldl (addKey (u32 (nbytesOf bitsPerKey keys * 8)) (kOf bitsPerKey))
+  show keys.foldl (addKey ((nbytesOf bitsPerKey keys * 8) % 2 ^ Consts.bloomBitsWidth) (kOf bitsPerKey))
     (List.replicate (nbytesOf bitsPerKey keys) 0) ++ _ = _
   rw [hu]
 
@@ -154,20 +155,33 @@ theorem createFilter_bits (bitsPerKey : Nat) (keys : List Bytes) (q : Nat) :
 theorem keyMayMatch_eq_all (key filter : Bytes) (hlen : 2 ≤ filter.length)
     (hk : (filter.getD (filter.length - 1) 0).toNat ≤ 30) :
     keyMayMatch key filter =
-      (keyProbes (u32 ((filter.length - 1) * 8)) (filter.getD (filter.length - 1) 0).toNat key).all
+      (keyProbes (((filter.length - 1) * 8) % 2 ^ Consts.bloomBitsWidth)
+          (filter.getD (filter.length - 1) 0).toNat key).all
         (testBit (filter.take (filter.length - 1))) := by
   unfold keyMayMatch keyProbes
   rw [if_neg (by omega)]
   simp only
   rw [if_neg (by omega), checkProbes_eq_all]
 
+/-- the same for filters of at most 2^61 bytes: the bit count `8·(len−1)` is not reduced -/
+theorem keyMayMatch_eq_all_small (key filter : Bytes) (hlen : 2 ≤ filter.length)
+    (hsmall : filter.length ≤ 2 ^ 61)
+    (hk : (filter.getD (filter.length - 1) 0).toNat ≤ 30) :
+    keyMayMatch key filter =
+      (keyProbes ((filter.length - 1) * 8) (filter.getD (filter.length - 1) 0).toNat key).all
+        (testBit (filter.take (filter.length - 1))) := by
+  rw [keyMayMatch_eq_all key filter hlen hk, Nat.mod_eq_of_lt]
+  rw [two_pow_bitsWidth]
+  omega
+
 /-- a created filter passes a key iff every probe position of the key is a probe position of a member -/
 theorem keyMayMatch_createFilter_iff (bitsPerKey : Nat) (keys : List Bytes) (key : Bytes)
-    (hfit : FitsU32 bitsPerKey keys) :
+    (hfit : FitsBits bitsPerKey keys) :
     keyMayMatch key (createFilter bitsPerKey keys) = true ↔
       ∀ q ∈ keyProbes (nbytesOf bitsPerKey keys * 8) (kOf bitsPerKey) key,
         ∃ key' ∈ keys, q ∈ keyProbes (nbytesOf bitsPerKey keys * 8) (kOf bitsPerKey) key' := by
-  have hu : u32 (nbytesOf bitsPerKey keys * 8) = nbytesOf bitsPerKey keys * 8 := Nat.mod_eq_of_lt hfit
+  have hu : (nbytesOf bitsPerKey keys * 8) % 2 ^ Consts.bloomBitsWidth = nbytesOf bitsPerKey keys * 8 :=
+    Nat.mod_eq_of_lt hfit
   have h8 := nbytesOf_ge bitsPerKey keys
   have hk := kOf_le bitsPerKey
   rw [createFilter_eq bitsPerKey keys hfit]
